@@ -216,10 +216,10 @@ def build(c):
     raise ValueError(k)
 
 
-def close(got, want, ulps):
+def close(got, want, ulps, mag=0):
     if ulps == 0:
         return got == want
-    return abs(got - want) <= ulps * U * abs(want)
+    return abs(got - want) <= ulps * U * max(abs(want), mag)
 
 
 def handle(c):
@@ -273,18 +273,19 @@ def handle(c):
     # oracle
     wouts, wJ = jacobian(ref_function(c), env)
     ulps = c.get('ulps', 0)
+    mag = fr(c['mag']) if c.get('mag') else 0
     ok, msg = True, ''
     if len(wouts) != nrows:
         ok, msg = False, '%d output entries, the options describe %d' % (nrows, len(wouts))
     else:
         for i in range(nrows):
-            if not close(outs[i], wouts[i], ulps):
+            if not close(outs[i], wouts[i], ulps, mag):
                 ok, msg = False, 'output[%d] = %r, the options describe %r' % (i, float(outs[i]), float(wouts[i]))
                 break
         if ok:
             for i in range(nrows):
                 for j in range(ncols):
-                    if not close(Jf[i][j], wJ[i][j], ulps):
+                    if not close(Jf[i][j], wJ[i][j], ulps, mag):
                         ok = False
                         msg = 'partial[%d,%d] = %r, exact derivative %r' % (i, j, float(Jf[i][j]), float(wJ[i][j]))
                         break
